@@ -32,7 +32,15 @@ pub enum Expr {
 pub enum Stmt {
     Var(Vec<(String, Expr)>),
     Probe(u32),
-    Group { attrs: Vec<(String, String)>, body: Vec<Stmt> },
+    Group {
+        attrs: Vec<(String, String)>,
+        body: Vec<Stmt>,
+        /// Some(k): the group carries id="G<k>:va=${va};vn=${vn};fill=${fill}", which must be
+        /// evaluated in the scope OUTSIDE the group (its own attributes shadow for
+        /// descendants only)
+        #[serde(default)]
+        idprobe: Option<u32>,
+    },
     Reuse { tmpl: usize, inst: u32, attrs: Vec<(String, Expr)> },
     Loop { count: u32, body: Vec<Stmt> },
     /// test on a numeric variable: lt($name, k)
@@ -57,6 +65,10 @@ pub struct Scn {
     /// defaults style elements, they never define variables
     #[serde(default)]
     pub defaults: bool,
+    /// a small var-limit (class "plain" only): an assignment or reuse attribute value longer
+    /// than this must make the transform fail - never resolve to something else instead
+    #[serde(default)]
+    pub var_limit: Option<u32>,
 }
 
 // ---------------------------------------------------------------------------------------------
@@ -155,7 +167,13 @@ impl<'a> Gen<'a> {
                         faulted = true;
                         no_assign |= enforce_no_assign_after;
                     }
-                    b.push(Stmt::Group { attrs, body });
+                    let idprobe = if self.rng.chance(1, 3) {
+                        self.next_probe += 1;
+                        Some(self.next_probe)
+                    } else {
+                        None
+                    };
+                    b.push(Stmt::Group { attrs, body, idprobe });
                 }
                 6 | 7 if depth < 3 => {
                     // transparent constructs: their assignments land at this scope level
@@ -280,8 +298,12 @@ fn render_body(b: &[Stmt], ind: usize, in_template: bool, out: &mut String, line
             Stmt::Probe(id) => {
                 out.push_str(&format!("{pad}<text xy=\"0 {line}\" text=\"{}\"/>\n", probe_text(*id, in_template)));
             }
-            Stmt::Group { attrs, body } => {
+            Stmt::Group { attrs, body, idprobe } => {
                 out.push_str(&format!("{pad}<g"));
+                if let Some(k) = idprobe {
+                    let inst = if in_template { "i${inst}" } else { "" };
+                    out.push_str(&format!(" id=\"G{k}{inst}:va=${{va}};vn=${{vn}};fill=${{fill}};\""));
+                }
                 for (k, v) in attrs {
                     out.push_str(&format!(" {k}=\"{v}\""));
                 }
@@ -342,7 +364,7 @@ pub fn render(scn: &Scn, fwd: bool) -> String {
         s.push_str("  </specs>\n");
     }
     if scn.defaults {
-        s.push_str("  <defaults><_ match=\"rect text var\" vz=\"DLEAK\" fill=\"dleak\"/><rect va=\"dva\"/><text vb=\"dvb\"/></defaults>\n");
+        s.push_str("  <defaults><_ match=\"rect text var\" vz=\"DLEAK\" fill=\"dleak\"/><rect va=\"dva\"/><text vb=\"dvb\"/><g vz=\"GLEAK\" vm=\"77\"/><_ match=\"g\" fill=\"gleak\"/></defaults>\n");
     }
     render_body(&scn.body, 1, false, &mut s, &mut line);
     if fwd {
@@ -365,6 +387,9 @@ struct Model<'a> {
     /// open constructs: (reached a forward reference, indices of observations made inside)
     frames: Vec<(bool, Vec<usize>)>,
     steps: u32,
+    var_limit: usize,
+    /// an executed assignment / reuse attribute exceeded var-limit: the transform must fail
+    rejected: bool,
 }
 
 impl<'a> Model<'a> {
@@ -401,6 +426,9 @@ impl<'a> Model<'a> {
             if self.steps > 5000 {
                 return None;
             }
+            if self.rejected {
+                return Some(());
+            }
             match s {
                 Stmt::Var(v) => {
                     let vals: Option<Vec<(String, String)>> =
@@ -410,6 +438,10 @@ impl<'a> Model<'a> {
                             // a stored value containing '$' may be expanded again later
                             // (attributes are evaluated more than once): outside the model
                             return None;
+                        }
+                        if x.len() > self.var_limit {
+                            self.rejected = true;
+                            return Some(());
                         }
                         self.set(&k, x);
                     }
@@ -430,9 +462,26 @@ impl<'a> Model<'a> {
                         f.1.push(idx);
                     }
                 }
-                Stmt::Group { attrs, body } => {
-                    self.scopes.push(attrs.iter().cloned().collect());
+                Stmt::Group { attrs, body, idprobe } => {
+                    // the id is evaluated whenever the group is: it belongs to the group's frame
                     self.frames.push((false, vec![]));
+                    if let Some(k) = idprobe {
+                        let mut t = String::new();
+                        for n in ["va", "vn", "fill"] {
+                            t.push_str(&format!("{n}={};", self.get(n).unwrap_or_else(|| format!("${{{n}}}"))));
+                        }
+                        let idx = self.obs.len();
+                        let key = match inst {
+                            Some(i) => format!("G{k}i{i}"),
+                            None => format!("G{k}"),
+                        };
+                        self.obs.push((key, t));
+                        self.inside.push(false);
+                        for f in self.frames.iter_mut() {
+                            f.1.push(idx);
+                        }
+                    }
+                    self.scopes.push(attrs.iter().cloned().collect());
                     self.exec(body, inst)?;
                     self.close_frame();
                     self.scopes.pop();
@@ -443,6 +492,10 @@ impl<'a> Model<'a> {
                         let x = self.eval(e)?;
                         if x.contains('$') {
                             return None;
+                        }
+                        if x.len() > self.var_limit {
+                            self.rejected = true;
+                            return Some(());
                         }
                         sc.insert(k.clone(), x);
                     }
@@ -482,7 +535,7 @@ impl<'a> Model<'a> {
     }
 }
 
-pub fn model(scn: &Scn) -> Option<(Vec<(String, String)>, Vec<bool>)> {
+pub fn model(scn: &Scn) -> Option<(Vec<(String, String)>, Vec<bool>, bool)> {
     let mut m = Model {
         scopes: vec![BTreeMap::new()],
         templates: &scn.templates,
@@ -490,9 +543,11 @@ pub fn model(scn: &Scn) -> Option<(Vec<(String, String)>, Vec<bool>)> {
         inside: Vec::new(),
         frames: Vec::new(),
         steps: 0,
+        var_limit: scn.var_limit.map(|v| v as usize).unwrap_or(usize::MAX),
+        rejected: false,
     };
     m.exec(&scn.body, None)?;
-    Some((m.obs, m.inside))
+    Some((m.obs, m.inside, m.rejected))
 }
 
 /// probe observations of an output, in output order
@@ -503,6 +558,15 @@ pub fn observations(out: &str) -> Option<Vec<(String, String)>> {
     let mut obs = Vec::new();
     for n in all {
         if let Node::Elem { name, .. } = n {
+            if name == "g" {
+                if let Some(id) = n.attr("id") {
+                    if id.starts_with('G') {
+                        if let Some((k, v)) = id.split_once(':') {
+                            obs.push((k.to_string(), v.to_string()));
+                        }
+                    }
+                }
+            }
             if name == "text" {
                 let t = n.text();
                 if t.starts_with('P') {
@@ -575,6 +639,29 @@ impl Engine for C15 {
         // trailing probe reads every name
         body.push(g.probe());
         let anchors = g.anchors;
+        let var_limit = if class == "plain" && index % 6 == 4 { Some(8 + (index % 5) as u32) } else { None };
+        if var_limit.is_some() {
+            // templates are evaluated once at definition time with their parameters still
+            // unexpanded; keep that pass from growing placeholder text past a small limit
+            fn literal_only(b: &mut [Stmt]) {
+                for s in b.iter_mut() {
+                    match s {
+                        Stmt::Var(v) => {
+                            for (k, e) in v.iter_mut() {
+                                if matches!(e, Expr::Concat(..) | Expr::Copy(..)) {
+                                    *e = Expr::Lit(if k == "vn" || k == "vm" { "3".into() } else { "z9".into() });
+                                }
+                            }
+                        }
+                        Stmt::Group { body, .. } | Stmt::Loop { body, .. } | Stmt::IfLt { body, .. } => literal_only(body),
+                        _ => {}
+                    }
+                }
+            }
+            for t in templates.iter_mut() {
+                literal_only(t);
+            }
+        }
         let mut derived = Vec::new();
         if n_templates > 0 && g.rng.chance(1, 3) {
             let nd = 1 + g.rng.usize(2);
@@ -596,6 +683,7 @@ impl Engine for C15 {
             anchors,
             derived,
             defaults: index % 5 == 2,
+            var_limit,
         })
         .unwrap()
     }
@@ -609,7 +697,7 @@ impl Engine for C15 {
                 return res;
             }
         };
-        let (expect, expect_inside) = match model(&scn) {
+        let (expect, expect_inside, expect_rejected) = match model(&scn) {
             Some(m) => m,
             None => {
                 res.stats.probe("program_outside_model");
@@ -619,6 +707,9 @@ impl Engine for C15 {
         };
         let mut cfg = Cfg::default();
         cfg.add_auto_styles = false;
+        if let Some(l) = scn.var_limit {
+            cfg.var_limit = l;
+        }
         let back = render(&scn, false);
         let fwd = render(&scn, true);
         let (b2, f2, c2) = (back.clone(), fwd.clone(), cfg.clone());
@@ -654,6 +745,22 @@ impl Engine for C15 {
         res.stats.nontrivial = retried;
         for (variant, out, doc) in [("back", &ob, &back), ("fwd", &of, &fwd)] {
             res.stats.outcome(out.class());
+            if expect_rejected {
+                res.stats.probe("model_expects_var_limit_rejection");
+                if let Outcome::Ok(bytes) = out {
+                    res.violation(
+                        "scoping/over-limit-value-accepted",
+                        &format!("c15:limit-not-enforced:{variant}"),
+                        format!(
+                            "{variant} variant: a value longer than var-limit {:?} was accepted (and something else resolved in its place); output: {}; document:\n{}",
+                            scn.var_limit,
+                            shorten(&String::from_utf8_lossy(bytes), 300),
+                            shorten(doc, 1500)
+                        ),
+                    );
+                }
+                continue;
+            }
             match out {
                 Outcome::Ok(bytes) => {
                     let got = observations(&String::from_utf8_lossy(bytes)).unwrap_or_default();
@@ -754,12 +861,13 @@ impl Engine for C15 {
             }
             for i in 0..b.len() {
                 match &b[i] {
-                    Stmt::Group { attrs, body } => {
+                    Stmt::Group { attrs, body, idprobe } => {
                         for nb in variants(body) {
                             let mut c = b.to_vec();
                             c[i] = Stmt::Group {
                                 attrs: attrs.clone(),
                                 body: nb,
+                                idprobe: *idprobe,
                             };
                             v.push(c);
                         }
@@ -770,6 +878,16 @@ impl Engine for C15 {
                             c[i] = Stmt::Group {
                                 attrs: na,
                                 body: body.clone(),
+                                idprobe: *idprobe,
+                            };
+                            v.push(c);
+                        }
+                        if idprobe.is_some() {
+                            let mut c = b.to_vec();
+                            c[i] = Stmt::Group {
+                                attrs: attrs.clone(),
+                                body: body.clone(),
+                                idprobe: None,
                             };
                             v.push(c);
                         }
